@@ -235,6 +235,11 @@ theorem precheck_rechecks_inside_buffer_lock :
     recheckBeforeAppend false false Generated.preCheckTrace = true ∧
     Generated.preCheckTrace.contains .append = true := by decide
 
+/-- the model gives every consumer MDIB its own state `St` (tables, version group, mode, buffer).  That is justified for
+    the implementation because no mutable container is an attribute of the `ConsumerMdib` class or of a base class
+    (regenerated by introspection on every run): two consumer MDIBs in one process cannot share a buffer -/
+theorem consumer_state_is_per_instance : Generated.consumerClassLevelMutableAttrs = [] := by decide
+
 /-- the pre-check of a notification is not atomic (state read, then buffer lock, then state read again).  For a
     notification thread that saw `initializing`: if it gets the buffer lock before `reload_all` replays, the report is
     buffered exactly as in the atomic step … -/
